@@ -762,3 +762,13 @@ CONFIGS['ps_walk_big'] = dict(
     emit_skip=[('none', []), ('one', ['s1']), ('list', ['s2', 's3'])],
     cb_to=['s1', 's2', 's3'], ack_ids=[1, 2, 3],
     ack_args=[[], ['v1'], ['v1', 'v2']])
+
+# a client on another host entered into a client's personal (sid-named) room
+CONFIGS['ps_sidroom_quick'] = dict(_BASE, immediate=True, max_chan=1,
+                                   rooms=['s1'], rooms_q=False, rxdisc=False,
+                                   lost=False, disc=False, close=False,
+                                   emit_to=[('one', ['s1']),
+                                            ('list', ['s1', 's2'])],
+                                   emit_skip=[('none', []), ('one', ['s1'])])
+CONFIGS['ps_sidroom_cb'] = dict(CONFIGS['ps_sidroom_quick'], cb_to=['s1'],
+                                ack_ids=[1, 2])
